@@ -54,16 +54,23 @@ def jobs(tier):
                         dict(version=version, shape="samename2", P=16384, K=2, layout=layout, decoy="none")))
         out.append(("v%d.flat2.named-dir.decoy-none" % version, "job",
                     dict(version=version, shape="flat2", P=16384, K=2, layout="named-dir", decoy="none")))
+    for version in (1, 2, 3):
+        out.append(("v%d.flat2.flat.name-dotdotcache" % version, "job",
+                    dict(version=version, shape="flat2", P=16384, K=2, layout="flat", decoy="none", tname="..cache")))
+        out.append(("v%d.flat2.flat.name-dots-and-spaces" % version, "job",
+                    dict(version=version, shape="flat2", P=16384, K=1, layout="flat", decoy="none", tname="...And Justice [1988] (v2)")))
+    out.append(("v1.ungrouped3.flat.decoy-none", "job", dict(version=1, shape="ungrouped3", P=16384, K=2, layout="flat", decoy="none")))
+    out.append(("v1.ungrouped3.mirror.decoy-none", "job", dict(version=1, shape="ungrouped3", P=16384, K=1, layout="mirror", decoy="none")))
     out.append(("v1.flat2.flat.partial-decoy", "job", dict(version=1, shape="flat2", P=16384, K=2, layout="flat", decoy="partial")))
     out.append(("v1.flat2.flat.cli", "job", dict(version=1, shape="flat2", P=16384, K=2, layout="flat", decoy="none", via="cli")))
     out.append(("v1.batch2", "job_batch", dict()))
     return out
 
 
-def job(E, version, shape, P, K, layout, decoy, via="assembler", _mutants=None):
+def job(E, version, shape, P, K, layout, decoy, via="assembler", tname="name", _mutants=None):
     order = "reversed" if decoy == "none" else ("sorted" if decoy == "partial" else "symbolic")
     fs, sizes, meta, expected = rw.build_world(E, version, shape, P, K, layout, decoy, order=order,
-                                               lo=1 if shape == "single" else 0)
+                                               lo=1 if shape == "single" else 0, tname=tname)
     snap = fs.snapshot()
     w = World(fs, mutants=_mutants)
     ok, count = rw.run_rebuild(E, w, ["/t/m.torrent"], rw.SEARCH[layout], "/dest", "C13", via)
